@@ -23,6 +23,7 @@ KW = gen.SDS_KEYWORDS_AS_PY  # 23 keywords that are legal Python identifiers
 STYLES = ["PLAINTEXT", "GOOGLE", "NUMPYDOC", "REST"]
 
 # ---- name pools -------------------------------------------------------------------------------------------
+PRIVATE_CLASS_NAMES = ["_lead", "_Base_impl", "_mixin"]
 PLAIN = ["alpha", "beta_value", "gammaRay", "Delta", "x", "y1", "long_snake_case_name", "MixedCase_name", "a_b_c", "n0_1", "ALLCAPS", "trail_", "dbl__under", "_lead"]
 
 
@@ -33,6 +34,8 @@ def name_pool(position: str) -> st.SearchStrategy:
     shapes.append(st.sampled_from(KW).map(lambda k: k + "_x"))
     if position not in {"class", "module"}:
         shapes.append(st.sampled_from(KW).map(lambda k: "__" + k + "__"))
+    if position == "class":
+        shapes.append(st.sampled_from(PRIVATE_CLASS_NAMES))  # private classes: their public members are copied into public subclasses
     return st.one_of(*shapes)
 
 
@@ -247,7 +250,14 @@ def _case(draw: Any, args: dict) -> dict:
                 # a consistent MRO: in-package bases first in definition-reversed order is not needed (no diamond: the
                 # pool classes get bases themselves, so keep only bases that are not ancestors of another chosen one)
                 d["bases"] = _mro_safe(chosen, decls)
-            if d["name"] in PLAIN:
+                # the subclass may define an attribute named like a method / property of one of its in-package bases
+                by_name = {x["name"]: x for x in decls if x["t"] == "class"}
+                inherited = [m["name"] for b in d["bases"] if b[0] == "raw" for m in by_name[b[1]]["members"] if m["t"] == "func"]
+                own = {m["name"] for m in d["members"]} | {a["name"] for a in (d.get("ctor") or {}).get("init_attrs", [])}
+                inherited = [n for n in inherited if n not in own]
+                if inherited and draw(st.booleans()):
+                    d["members"].insert(0, gt.attr(draw(st.sampled_from(inherited)), ["bool"], "False"))
+            if d["name"] in PLAIN or d["name"].rstrip("0123456789") in PRIVATE_CLASS_NAMES:
                 earlier.append(d["name"])
         sub = draw(st.sampled_from([[], [], ["sub_pkg"], ["sub_pkg"], ["sub_pkg", "deeper_one"], ["Camel"], ["zeta"], ["zeta"], ["yard"], ["sub_pkg", "inner"]]))
         modules.append(gt.module([pkgname, *sub, mname], [decls[i] for i in perm], doc=draw(doc_texts()) if draw(st.booleans()) else None))
